@@ -673,9 +673,14 @@ class PVLParser(object):
         ``set`` objects are non-hashable, they cannot be members of a set,
         however, ``frozenset`` objects can.
         """
-        return frozenset(
-            self._parse_set_seq(self.grammar.set_delimiters, tokens)
-        )
+        elements = self._parse_set_seq(self.grammar.set_delimiters, tokens)
+        try:
+            return frozenset(elements)
+        except TypeError:
+            raise ParseError(
+                "A PVL Set that contains a Sequence cannot be represented "
+                f"as a Python frozenset: {elements}"
+            )
 
     def parse_sequence(self, tokens: abc.Generator) -> list:
         """Parses a PVL Sequence.
@@ -845,7 +850,14 @@ class ODLParser(PVLParser):
         can be represented as a Python ``set`` (unlike PVL Sets,
         which must be represented as a Python ``frozenset`` objects).
         """
-        return set(self._parse_set_seq(self.grammar.set_delimiters, tokens))
+        elements = self._parse_set_seq(self.grammar.set_delimiters, tokens)
+        try:
+            return set(elements)
+        except TypeError:
+            raise ParseError(
+                "ODL Sets may only contain scalar values, this one contains "
+                f"a Set or Sequence: {elements}"
+            )
 
     def parse_units(self, value, tokens: abc.Generator) -> str:
         """Extends the parent function, since ODL only allows units
